@@ -67,6 +67,43 @@ REJECT = {
 }
 
 
+def _value_deps(fi, expr, single_only=False):
+    """parameter / local names a value depends on; a `.clean(x, program, lineno)` call passes the other two along without its
+    result depending on them (they locate errors and resolve references), so only its first argument counts"""
+    defs = {}
+    for n in own_nodes(fi.node):
+        if isinstance(n, ast.Assign):
+            for t in n.targets:
+                if isinstance(t, ast.Name):
+                    defs.setdefault(t.id, []).append(n.value)
+
+    def names(e):
+        out = set()
+        skip = set()
+        for x in ast.walk(e):
+            if isinstance(x, ast.Call) and isinstance(x.func, ast.Attribute) and x.func.attr == "clean" and len(x.args) > 1:
+                for a in x.args[1:]:
+                    skip |= {id(y) for y in ast.walk(a)}
+                for k in x.keywords:
+                    skip |= {id(y) for y in ast.walk(k.value)}
+        for x in ast.walk(e):
+            if isinstance(x, ast.Name) and id(x) not in skip:
+                out.add(x.id)
+        return out
+
+    seen, work = set(), list(names(expr))
+    while work:
+        n = work.pop()
+        if n in seen:
+            continue
+        seen.add(n)
+        if single_only and len(defs.get(n, ())) != 1:
+            continue  # a name bound several times stands for itself (which binding reaches here is not followed)
+        for v in defs.get(n, ()):
+            work.extend(names(v))
+    return seen
+
+
 def kind_table(ctx, idx, rule):
     """every argument has the declared kind: the wrong raw kinds are rejected, with ParameterNotValid, never coerced"""
     S = summaries(idx)
@@ -153,7 +190,31 @@ def run(ctx, idx):
         con = "%s::%s.clean::pure" % (K.rel(fi), cname)
         eff = sorted({e for rec in per.values() for e in rec["effects"]})
         own = ci.methods.get("clean")
-        if eff:
+        # values remembered on the parameter object between calls (parameter objects are shared by every command and program):
+        # what is stored under a key may depend only on what the key holds
+        memo_bad = None
+        if own is not None:
+            sn_ = K.self_name(own)
+            pnames = [a.arg for a in own.node.args.args[1:3]]
+            for st in own_nodes(own.node):
+                if isinstance(st, ast.Assign):
+                    for t_ in st.targets:
+                        if isinstance(t_, ast.Subscript) and isinstance(t_.value, ast.Attribute) and isinstance(t_.value.value, ast.Name) and t_.value.value.id == sn_:
+                            dk = _value_deps(own, t_.slice, single_only=True)
+                            # what the remembered value can depend on: every parameter the method reads before the store
+                            de = set()
+                            for x_ in own_nodes(own.node):
+                                if isinstance(x_, ast.Attribute) and isinstance(x_.value, ast.Name) and x_.value.id in pnames and getattr(x_, "lineno", 0) <= st.lineno:
+                                    de.add(x_.value.id)
+                                if isinstance(x_, ast.Name) and x_.id == pnames[0] and isinstance(x_.ctx, ast.Load):
+                                    de.add(x_.id)
+                            lacking = [p_ for p_ in pnames if p_ in de and p_ not in dk]
+                            if lacking:
+                                memo_bad = (st, t_, lacking)
+        if memo_bad is not None:
+            st, t_, lacking = memo_bad
+            ctx.violate("C20.d", con, K.rel(fi), st.lineno, "`%s` remembers a cleaned value on the parameter object under a key that leaves out `%s`, which the value depends on: the same parameter object serves every command and program, so a later clean with another %s is handed the remembered value (and skips the checks made when it was computed)" % (K.src(t_), "`, `".join(lacking), "/".join(lacking)))
+        elif eff:
             ctx.violate("C20.d", con, K.rel(fi), fi.node.lineno, "clean has effects: %s" % "; ".join(eff[:3]))
         else:
             ctx.hold("C20.d", con, K.rel(fi), fi.node.lineno, "no stores through value/program, no mutating calls, no global/self stores, no I/O", nontrivial=own is not None)
@@ -253,6 +314,12 @@ def run(ctx, idx):
     val = dt.node.args.args[1].arg
     rets = [n for n in own_nodes(dt.node) if isinstance(n, ast.Return)]
     ok = any(K.src(r.value).replace(" ", "") == "%s.valid_types[%s]" % (K.self_name(dt), val) for r in rets if r.value is not None)
+    if not ok:
+        # the key may be the value put into the declared spelling first (a helper of the class applied to the value)
+        for r in rets:
+            v_ = r.value
+            if isinstance(v_, ast.Subscript) and K.src(v_.value).replace(" ", "") == "%s.valid_types" % K.self_name(dt) and (val in K.names_in(K.expand(dt, v_.slice)) or val in K.dep_names(dt, v_.slice)):
+                ok = True
     ctx.ob("C20.e", "%s::name-to-type" % dt.key, K.rel(dt), dt.node.lineno, ok, "names map through valid_types[value]" if ok else "a data-type name is not mapped through valid_types[value]")
     # list items: every item is unwrapped and goes through the declared value type, on every return
     from . import coverage as _cov
